@@ -459,12 +459,12 @@ func genLimitCfg(t *rapid.T, algos []string, allowWrappers bool) LimitCfg {
 			c.Backoff, c.Initial = np.F, np.L
 		}
 	case "vegas":
-		c.Max = rapid.OneOf(rapid.IntRange(1, 30), rapid.IntRange(1, 3000), genTableEdge()).Draw(t, "max")
+		c.Max = rapid.OneOf(rapid.IntRange(1, 30), rapid.IntRange(1, 3000), genTableEdge(), rapid.SampledFrom([]int{1000, 1000, 1000, 200, 100})).Draw(t, "max") // (1000: the ceiling the library itself defaults to, where its pre-computed tables end)
 		c.Initial = rapid.OneOf(rapid.IntRange(1, c.Max), rapid.IntRange(1, 3000), genTableEdge()).Draw(t, "initial")
 		c.Smoothing = genSmoothing().Draw(t, "smoothing")
 		c.ProbeMult = rapid.OneOf(rapid.Just(0), rapid.IntRange(1, 100)).Draw(t, "pm")
 	case "gradient":
-		c.Max = rapid.OneOf(rapid.IntRange(1, 30), rapid.IntRange(1, 3000), genTableEdge()).Draw(t, "max")
+		c.Max = rapid.OneOf(rapid.IntRange(1, 30), rapid.IntRange(1, 3000), genTableEdge(), rapid.SampledFrom([]int{1000, 1000, 1000, 200, 100})).Draw(t, "max") // (1000: the ceiling the library itself defaults to, where its pre-computed tables end)
 		c.Min = rapid.IntRange(1, minInt(c.Max, 40)).Draw(t, "min")
 		c.Initial = rapid.OneOf(rapid.IntRange(c.Min, c.Max), rapid.IntRange(c.Min, 3000)).Draw(t, "initial")
 		c.Smoothing = genSmoothing().Draw(t, "smoothing")
@@ -475,7 +475,7 @@ func genLimitCfg(t *rapid.T, algos []string, allowWrappers bool) LimitCfg {
 			c.Queue = fmt.Sprintf("fixed:%d", minInt(4, c.Max)) // default sqrt:4 may exceed a tiny max
 		}
 	case "gradient2":
-		c.Max = rapid.OneOf(rapid.IntRange(1, 30), rapid.IntRange(1, 3000), genTableEdge()).Draw(t, "max")
+		c.Max = rapid.OneOf(rapid.IntRange(1, 30), rapid.IntRange(1, 3000), genTableEdge(), rapid.SampledFrom([]int{1000, 1000, 1000, 200, 100})).Draw(t, "max") // (1000: the ceiling the library itself defaults to, where its pre-computed tables end)
 		c.Min = rapid.IntRange(1, minInt(c.Max, 40)).Draw(t, "min")
 		c.Initial = rapid.OneOf(rapid.IntRange(c.Min, c.Max), rapid.IntRange(c.Min, 3000)).Draw(t, "initial")
 		c.Smoothing = genSmoothing().Draw(t, "smoothing")
@@ -557,6 +557,28 @@ func genSamples(t *rapid.T, c LimitCfg, maxN int) []Sample {
 		lo = minInt(rapid.SampledFrom([]int{1, 1, 8, 30, 100}).Draw(t, "minlen"), maxN)
 	}
 	out := rapid.SliceOfN(one, lo, maxN).Draw(t, "samples")
+	if maxN >= 8 {
+		// whole-list shapes that a sample-by-sample mixture practically never produces (fed several times over by the
+		// callers that repeat their lists, they become runs of thousands):
+		switch rapid.IntRange(0, 15).Draw(t, "shape") {
+		case 0: // a quiet service: every sample idle and drop-free
+			for i := range out {
+				out[i].Drop, out[i].Rel, out[i].Inf = false, "third", 0
+				if i%2 == 1 {
+					out[i].Rel = ""
+				}
+			}
+		case 1: // a healthy saturated service at one constant RTT, then a single drop at the very end
+			r := rapid.OneOf(rapid.Int64Range(1, 1000), rapid.Int64Range(100_000, 50_000_000)).Draw(t, "healthyRTT")
+			for i := range out {
+				out[i].Drop, out[i].Rel, out[i].RTT = false, "dbl", r
+			}
+			out[len(out)-1].Drop = true
+			if rapid.Bool().Draw(t, "slowDrop") {
+				out[len(out)-1].RTT = r * 10
+			}
+		}
+	}
 	if c.Windowed || c.Outer2 == "windowed" {
 		start := int64(0)
 		for i := range out {
